@@ -15,13 +15,16 @@
 
    On the first point.  The coefficient loop of of_invert_vdm is NOT the general
    expansion of prod (x - p_i): its inner loop starts one index later than the
-   Numerical Recipes original (j = k-1-(i-1) instead of j = k-1-i), so the
-   constant term c[0] is never written and stays 0.  The loop therefore computes
-   x * prod_{i>=1} (x - p_i), which is prod_{i>=0} (x - p_i) exactly when
-   p_0 = 0.  That is the case for the only caller (of_rs_new: the second column
-   of the first Vandermonde row is 0), and every theorem below about k >= 2
-   carries the hypothesis [nth 0 pts zero = zero].  The example
-   [invert_vdm_needs_p0_zero] shows that the hypothesis cannot be dropped.
+   Numerical Recipes original (j = k-1-(i-1) instead of j = k-1-i), so in every
+   pass the lowest coefficient of the new product, p_i * (constant term of the
+   previous product), is dropped.  Started from x - p_0 the loop therefore
+   computes x * prod_{i>=1} (x - p_i) only when p_0 = 0, and that is
+   prod_{i>=0} (x - p_i) exactly in this case.  It is the case for the only
+   caller (of_rs_new: the second column of the first Vandermonde row is 0), and
+   every theorem below about k >= 2 carries the hypothesis
+   [nth 0 pts zero = zero].  (For k = 2 the result happens to be right anyway,
+   because c[0] is never read.)  The example [invert_vdm_needs_p0_zero] shows on
+   the points 1, 2, 4 that the hypothesis cannot be dropped for k = 3.
    On subtraction.  The C code works in GF(2^m) and writes ^ for both + and -;
    the model keeps the abstract [add]; the theory assumes [add_self]. *)
 From Coq Require Import List Arith NArith Bool Lia Ring.
@@ -167,3 +170,1361 @@ Proof.
   - reflexivity.
   - cbn [fold_left]. rewrite IH by exact H. rewrite H. reflexivity.
 Qed.
+
+(* ------------------------------------------------------------------ *)
+(* Part 2: theory over a field of characteristic 2                     *)
+(* ------------------------------------------------------------------ *)
+Section Theory.
+  Variable F : Type.
+  Variables (zero one : F) (add mul : F -> F -> F) (opp inv : F -> F).
+
+  Hypothesis eq_dec : forall a b : F, {a = b} + {a <> b}.
+  Hypothesis add_comm : forall a b, add a b = add b a.
+  Hypothesis add_assoc : forall a b c, add a (add b c) = add (add a b) c.
+  Hypothesis add_0_l : forall a, add zero a = a.
+  Hypothesis add_opp_r : forall a, add a (opp a) = zero.
+  Hypothesis add_self : forall a, add a a = zero.
+  Hypothesis mul_comm : forall a b, mul a b = mul b a.
+  Hypothesis mul_assoc : forall a b c, mul a (mul b c) = mul (mul a b) c.
+  Hypothesis mul_1_l : forall a, mul one a = a.
+  Hypothesis mul_add_distr_l : forall a b c, mul a (add b c) = add (mul a b) (mul a c).
+  Hypothesis mul_inv_r : forall a, a <> zero -> mul a (inv a) = one.
+  Hypothesis one_neq_zero : one <> zero.
+
+  Local Notation mat := (list (list F)).
+  Local Notation mget := (get F zero).
+  Local Notation fsub := (sub F add opp).
+  Local Notation pe := (peval F zero add mul).
+  Local Notation fpow := (pow F one mul).
+  Local Notation fsum := (sum F zero add).
+  Local Notation fprod := (prod F one mul).
+  Local Notation flagr := (lagr F zero one add mul opp inv).
+  Local Notation flagr_poly := (lagr_poly F zero one add mul opp inv).
+  Local Notation fpscale := (pscale F mul).
+  Local Notation fpadd := (padd F add).
+  Local Notation fpmul_lin := (pmul_lin F zero add mul).
+  Local Notation fquot := (quot F zero add mul).
+  Local Notation fcoeff_upd := (coeff_upd F zero add mul).
+  Local Notation fcoeff_step := (coeff_step F zero add mul).
+  Local Notation fvdm_coeffs := (vdm_coeffs F zero add mul).
+  Local Notation frow_step := (row_step F zero add mul).
+  Local Notation fvdm_row := (vdm_row F zero one add mul).
+  Local Notation fstore_col := (store_col F zero mul).
+  Local Notation finvert_row := (invert_row F zero one add mul inv).
+  Local Notation finvert_vdm_gen := (invert_vdm_gen F zero one add mul inv).
+  Local Notation finvert_vdm_mat := (invert_vdm_mat F zero one add mul inv).
+  Local Notation fvdm_rows := (vdm_rows F zero one mul).
+  Local Notation finvert_vdm := (invert_vdm F zero one add mul inv).
+  Local Notation fmatmul := (matmul F zero add mul).
+  Local Notation funit_rows := (unit_rows F zero one).
+  Local Notation fbuild_enc := (build_enc F zero one add mul inv).
+
+  Add Ring InvertVdm_ring :
+    (F_ring F zero one add mul opp add_comm add_assoc add_0_l add_opp_r
+            mul_comm mul_assoc mul_1_l mul_add_distr_l).
+
+  Lemma opp_id : forall a, opp a = a.
+  Proof.
+    intros a.
+    assert (E : opp a = add (add a a) (opp a)) by (rewrite add_self; ring).
+    rewrite E. transitivity (add a (add a (opp a))); [ring|].
+    rewrite add_opp_r. ring.
+  Qed.
+
+  Lemma sub_is_add : forall a b, fsub a b = add a b.
+  Proof. intros a b. unfold sub. rewrite opp_id. reflexivity. Qed.
+
+  (* ---- coefficients of the auxiliary polynomial operations ---- *)
+  Lemma nth_pscale : forall c p m, nth m (fpscale c p) zero = mul c (nth m p zero).
+  Proof.
+    intros c p. unfold pscale. induction p as [|a p IH]; intros m.
+    - destruct m; cbn [map nth]; ring.
+    - destruct m as [|m]; cbn [map nth]; [reflexivity|apply IH].
+  Qed.
+
+  Lemma nth_padd : forall p q m,
+    nth m (fpadd p q) zero = add (nth m p zero) (nth m q zero).
+  Proof.
+    intros p. induction p as [|a p IH]; intros q m.
+    - cbn [padd]. destruct m; cbn [nth]; ring.
+    - destruct q as [|b q].
+      + cbn [padd]. destruct m; cbn [nth]; ring.
+      + cbn [padd]. destruct m as [|m]; cbn [nth]; [reflexivity|apply IH].
+  Qed.
+
+  Lemma nth_pmul_lin : forall a q m,
+    nth m (fpmul_lin a one q) zero
+    = add (mul a (nth m q zero)) (match m with O => zero | S m' => nth m' q zero end).
+  Proof.
+    intros a q m. unfold pmul_lin. rewrite nth_padd, nth_pscale.
+    destruct m as [|m]; cbn [nth]; [reflexivity|].
+    rewrite nth_pscale. ring.
+  Qed.
+
+  (* prod (a_i + X) over the list, as a coefficient list *)
+  Definition linprod (l : list F) : list F :=
+    fold_right (fun a acc => fpmul_lin a one acc) [one] l.
+
+  Lemma linprod_length : forall l, length (linprod l) = S (length l).
+  Proof.
+    intros l. induction l as [|a l IH].
+    - reflexivity.
+    - cbn [linprod fold_right length].
+      rewrite (pmul_lin_length F zero add mul). fold (linprod l). rewrite IH. reflexivity.
+  Qed.
+
+  Lemma peval_linprod : forall l x,
+    pe (linprod l) x = fprod (map (fun a => add a x) l).
+  Proof.
+    intros l x. induction l as [|a l IH].
+    - cbn. ring.
+    - cbn [linprod fold_right map].
+      rewrite (peval_pmul_lin F zero one add mul opp add_comm add_assoc add_0_l add_opp_r
+                 mul_comm mul_assoc mul_1_l mul_add_distr_l).
+      fold (linprod l). rewrite IH.
+      change (fprod (add a x :: map (fun a0 => add a0 x) l))
+        with (mul (add a x) (fprod (map (fun a0 => add a0 x) l))).
+      ring.
+  Qed.
+
+  (* ---- the array c extended by the implicit leading coefficient c[k] = 1 ---- *)
+  Lemma ext_lt : forall (c : list F) j, j < length c -> nth j (c ++ [one]) zero = nth j c zero.
+  Proof. intros c j Hj. apply app_nth1. exact Hj. Qed.
+
+  Lemma ext_eq : forall (c : list F) k, length c = k -> nth k (c ++ [one]) zero = one.
+  Proof.
+    intros c k HL. subst k. rewrite app_nth2 by lia. rewrite Nat.sub_diag. reflexivity.
+  Qed.
+
+  Lemma ext_gt : forall (c : list F) j, length c < j -> nth j (c ++ [one]) zero = zero.
+  Proof.
+    intros c j Hj. apply nth_overflow. rewrite app_length. cbn [length]. lia.
+  Qed.
+
+  (* ---- the inner loop  for (j = lo; j < lo + cnt; j++) c[j] ^= p_i * c[j+1] ---- *)
+  Lemma coeff_inner_spec : forall pi cnt lo c,
+    lo + cnt <= length c ->
+    length (fold_left (fcoeff_upd pi) (seq lo cnt) c) = length c /\
+    (forall j, lo <= j < lo + cnt ->
+       nth j (fold_left (fcoeff_upd pi) (seq lo cnt) c) zero
+       = add (nth j c zero) (mul pi (nth (S j) c zero))) /\
+    (forall j, j < lo \/ lo + cnt <= j ->
+       nth j (fold_left (fcoeff_upd pi) (seq lo cnt) c) zero = nth j c zero).
+  Proof.
+    intros pi cnt. induction cnt as [|cnt IH]; intros lo c Hl.
+    - cbn [seq fold_left]. split; [reflexivity|]. split.
+      + intros j Hj. lia.
+      + intros j _. reflexivity.
+    - cbn [seq fold_left].
+      assert (Hlen : length (fcoeff_upd pi c lo) = length c).
+      { unfold coeff_upd. apply set_nth_length. }
+      destruct (IH (S lo) (fcoeff_upd pi c lo)) as [H1 [H2 H3]]; [rewrite Hlen; lia|].
+      assert (Hother : forall j, j <> lo -> nth j (fcoeff_upd pi c lo) zero = nth j c zero).
+      { intros j Hj. unfold coeff_upd. apply nth_set_nth_neq. exact Hj. }
+      split; [rewrite H1; exact Hlen|]. split.
+      + intros j Hj. destruct (Nat.eq_dec j lo) as [E|NE].
+        * subst j. rewrite H3 by lia. unfold coeff_upd. apply nth_set_nth_eq. lia.
+        * rewrite H2 by lia. rewrite !Hother by lia. reflexivity.
+      + intros j Hj. rewrite H3 by lia. apply Hother. lia.
+  Qed.
+
+  (* ---- one pass of the outer loop, on the extended array ---- *)
+  Lemma coeff_step_spec : forall k p c i,
+    length c = k -> 1 <= i < k ->
+    (forall j, j <= k - i -> nth j (c ++ [one]) zero = zero) ->
+    length (fcoeff_step k p c i) = k /\
+    forall j, nth j (fcoeff_step k p c i ++ [one]) zero
+              = add (nth j (c ++ [one]) zero)
+                    (mul (nth i p zero) (nth (S j) (c ++ [one]) zero)).
+  Proof.
+    intros k p c i HL Hi Hz. unfold coeff_step. cbv zeta.
+    set (pi := nth i p zero).
+    assert (Er : range (k - 1 - (i - 1)) (k - 1) = seq (k - i) (i - 1)).
+    { unfold range. f_equal; lia. }
+    rewrite Er.
+    destruct (coeff_inner_spec pi (i - 1) (k - i) c) as [H1 [H2 H3]]; [lia|].
+    set (c1 := fold_left (fcoeff_upd pi) (seq (k - i) (i - 1)) c) in *.
+    assert (HL' : length (set_nth (k - 1) (add (nth (k - 1) c1 zero) pi) c1) = k).
+    { rewrite set_nth_length, H1. exact HL. }
+    split; [exact HL'|].
+    intros j.
+    destruct (lt_dec j k) as [Hjk|Hjk].
+    - rewrite ext_lt by lia. rewrite (ext_lt c j) by lia.
+      destruct (Nat.eq_dec j (k - 1)) as [E|NE].
+      + rewrite E. rewrite nth_set_nth_eq by lia.
+        rewrite H3 by lia.
+        replace (S (k - 1)) with k by lia. rewrite (ext_eq c k HL). ring.
+      + rewrite nth_set_nth_neq by exact NE.
+        rewrite (ext_lt c (S j)) by lia.
+        destruct (lt_dec j (k - i)) as [Hlo|Hlo].
+        * rewrite H3 by lia.
+          pose proof (Hz j) as Z1. pose proof (Hz (S j)) as Z2.
+          rewrite ext_lt in Z1 by lia. rewrite ext_lt in Z2 by lia.
+          rewrite Z1, Z2 by lia. ring.
+        * rewrite H2 by lia. reflexivity.
+    - destruct (Nat.eq_dec j k) as [E|NE].
+      + subst j. rewrite (ext_eq _ k HL'), (ext_eq c k HL).
+        rewrite (ext_gt c (S k)) by lia. ring.
+      + rewrite ext_gt by lia. rewrite (ext_gt c j) by lia.
+        rewrite (ext_gt c (S j)) by lia. ring.
+  Qed.
+
+  (* ---- the outer loop: after the passes i = 1 .. m the array holds
+     prod_{1 <= l <= m} (p_l + X), right-aligned, provided p_0 = 0 ---- *)
+  Definition pts_upto (p : list F) (m : nat) : list F :=
+    rev (map (fun l => nth l p zero) (seq 1 m)).
+
+  Lemma coeffs_inv : forall k p, nth 0 p zero = zero -> forall m, m < k ->
+    let c := fold_left (fcoeff_step k p) (seq 1 m)
+                       (set_nth (k - 1) (nth 0 p zero) (repeat zero k)) in
+    length c = k /\
+    (forall j, j < k - m -> nth j (c ++ [one]) zero = zero) /\
+    (forall t, nth (k - m + t) (c ++ [one]) zero = nth t (linprod (pts_upto p m)) zero).
+  Proof.
+    intros k p Hp0 m. induction m as [|m IH]; intros Hm; cbv zeta.
+    - cbn [seq fold_left]. rewrite Hp0.
+      set (c0 := set_nth (k - 1) zero (repeat zero k)).
+      assert (HL0 : length c0 = k).
+      { unfold c0. rewrite set_nth_length. apply repeat_length. }
+      assert (Hc0 : forall j, nth j c0 zero = zero).
+      { intros j. unfold c0. destruct (Nat.eq_dec j (k - 1)) as [E|NE].
+        - rewrite E. apply nth_set_nth_eq. rewrite repeat_length. lia.
+        - rewrite nth_set_nth_neq by exact NE.
+          destruct (lt_dec j k) as [Hj|Hj].
+          + apply nth_repeat.
+          + apply nth_overflow. rewrite repeat_length. lia. }
+      split; [exact HL0|]. split.
+      + intros j Hj. rewrite ext_lt by lia. apply Hc0.
+      + intros t. rewrite Nat.sub_0_r. unfold pts_upto. cbn [seq map rev linprod fold_right].
+        destruct t as [|t].
+        * rewrite Nat.add_0_r. rewrite (ext_eq c0 k HL0). reflexivity.
+        * rewrite ext_gt by lia. cbn [nth]. destruct t; reflexivity.
+    - destruct (IH ltac:(lia)) as [HL [Hz Hq]]. clear IH.
+      rewrite seq_S, fold_left_app. cbn [fold_left].
+      set (c := fold_left (fcoeff_step k p) (seq 1 m)
+                          (set_nth (k - 1) (nth 0 p zero) (repeat zero k))) in *.
+      replace (1 + m) with (S m) by lia.
+      destruct (coeff_step_spec k p c (S m) HL) as [HL' Hstep]; [lia| |].
+      { intros j Hj. apply Hz. lia. }
+      split; [exact HL'|]. split.
+      + intros j Hj. rewrite Hstep, (Hz j), (Hz (S j)) by lia. ring.
+      + intros t. rewrite Hstep.
+        assert (EQ : linprod (pts_upto p (S m))
+                     = fpmul_lin (nth (S m) p zero) one (linprod (pts_upto p m))).
+        { unfold pts_upto. rewrite seq_S, map_app, rev_app_distr. reflexivity. }
+        rewrite EQ, nth_pmul_lin.
+        replace (S (k - S m + t)) with (k - m + t) by lia. rewrite Hq.
+        destruct t as [|t].
+        * rewrite (Hz (k - S m + 0)) by lia. ring.
+        * replace (k - S m + S t) with (k - m + t) by lia. rewrite Hq. ring.
+  Qed.
+
+  (* the coefficient array, extended by c[k] = 1, is X * prod_{1<=l<k} (p_l + X) *)
+  Theorem vdm_coeffs_poly : forall k p, 1 <= k -> nth 0 p zero = zero ->
+    length (fvdm_coeffs k p) = k /\
+    fvdm_coeffs k p ++ [one] = zero :: linprod (pts_upto p (k - 1)).
+  Proof.
+    intros k p Hk Hp0. unfold vdm_coeffs.
+    assert (Er : range 1 k = seq 1 (k - 1)) by reflexivity. rewrite Er.
+    destruct (coeffs_inv k p Hp0 (k - 1)) as [HL [Hz Hq]]; [lia|].
+    set (c := fold_left (fcoeff_step k p) (seq 1 (k - 1))
+                        (set_nth (k - 1) (nth 0 p zero) (repeat zero k))) in *.
+    split; [exact HL|].
+    apply (nth_ext _ _ zero zero).
+    - rewrite app_length. cbn [length]. rewrite linprod_length.
+      unfold pts_upto. rewrite rev_length, map_length, seq_length. lia.
+    - intros j _. destruct j as [|j].
+      + cbn [nth]. apply Hz. lia.
+      + cbn [nth]. rewrite <- Hq. f_equal. lia.
+  Qed.
+
+  Lemma peval_vdm_coeffs : forall k p x, 1 <= k -> nth 0 p zero = zero ->
+    pe (fvdm_coeffs k p ++ [one]) x
+    = mul x (fprod (map (fun a => add a x) (pts_upto p (k - 1)))).
+  Proof.
+    intros k p x Hk Hp0. destruct (vdm_coeffs_poly k p Hk Hp0) as [_ E].
+    rewrite E. change (pe (zero :: ?q) x) with (add zero (mul x (pe q x))).
+    rewrite peval_linprod. ring.
+  Qed.
+
+  (* P vanishes on p_0 .. p_(k-1) *)
+  Lemma vdm_coeffs_roots : forall k p l, 1 <= k -> nth 0 p zero = zero -> l < k ->
+    pe (fvdm_coeffs k p ++ [one]) (nth l p zero) = zero.
+  Proof.
+    intros k p l Hk Hp0 Hl. rewrite peval_vdm_coeffs by assumption.
+    destruct l as [|l].
+    - rewrite Hp0. ring.
+    - rewrite (prod_has_zero F zero one add mul opp add_comm add_assoc add_0_l add_opp_r
+                 mul_comm mul_assoc mul_1_l mul_add_distr_l).
+      + ring.
+      + apply in_map_iff. exists (nth (S l) p zero). split; [apply add_self|].
+        unfold pts_upto. apply in_rev. rewrite rev_involutive.
+        apply in_map_iff. exists (S l). split; [reflexivity|]. apply in_seq. lia.
+  Qed.
+
+  (* ---- synthetic division ---- *)
+  Lemma quot_nth_rec : forall p a i,
+    nth i (fquot p a) zero
+    = add (nth (S i) p zero) (mul a (nth (S i) (fquot p a) zero)).
+  Proof.
+    intros p a. induction p as [|c p IH]; intros i.
+    - cbn [quot nth]. destruct i; ring.
+    - destruct p as [|d p].
+      + cbn [quot nth]. destruct i; ring.
+      + rewrite (quot_cons2 F zero add mul). destruct i as [|i].
+        * cbn [nth].
+          change (pe (d :: p) a) with (add d (mul a (pe p a))).
+          destruct p as [|e p].
+          -- cbn [quot nth peval fold_right]. ring.
+          -- rewrite (quot_cons2 F zero add mul). cbn [nth]. reflexivity.
+        * cbn [nth]. rewrite IH. reflexivity.
+  Qed.
+
+  (* the loop  for (i = m-1; i >= 0; i--)  of vdm_row *)
+  Lemma row_loop_spec : forall k c xx, length c = k ->
+    forall m b t, m < k -> length b = k ->
+      (forall j, m <= j -> nth j b zero = nth j (fquot (c ++ [one]) xx) zero) ->
+      t = pe (skipn m (fquot (c ++ [one]) xx)) xx ->
+      fold_left (frow_step c xx) (rev (seq 0 m)) (b, t)
+      = (fquot (c ++ [one]) xx, pe (fquot (c ++ [one]) xx) xx).
+  Proof.
+    intros k c xx HL.
+    assert (HLQ : length (fquot (c ++ [one]) xx) = k).
+    { rewrite (quot_length F zero add mul), app_length. cbn [length]. lia. }
+    set (Q := fquot (c ++ [one]) xx) in *.
+    intros m. induction m as [|m IH]; intros b t Hm HLb Hb Ht.
+    - cbn [seq rev fold_left]. f_equal.
+      + apply (nth_ext _ _ zero zero); [lia|]. intros j _. apply Hb. lia.
+      + rewrite Ht. reflexivity.
+    - rewrite seq_S, rev_app_distr. cbn [rev app fold_left Nat.add].
+      unfold row_step at 2. cbn [fst snd].
+      assert (Ebm : add (nth (S m) c zero) (mul xx (nth (S m) b zero)) = nth m Q zero).
+      { unfold Q. rewrite quot_nth_rec. fold Q. rewrite (Hb (S m)) by lia.
+        rewrite ext_lt by lia. reflexivity. }
+      rewrite Ebm.
+      apply IH.
+      + lia.
+      + rewrite set_nth_length. exact HLb.
+      + intros j Hj. destruct (Nat.eq_dec j m) as [E|NE].
+        * subst j. apply nth_set_nth_eq. lia.
+        * rewrite nth_set_nth_neq by exact NE. apply Hb. lia.
+      + rewrite nth_set_nth_eq by lia.
+        rewrite (skipn_nth_cons F m Q zero) by lia.
+        change (pe (nth m Q zero :: skipn (S m) Q) xx)
+          with (add (nth m Q zero) (mul xx (pe (skipn (S m) Q) xx))).
+        rewrite Ht. ring.
+  Qed.
+
+  (* b = P / (X - xx) and t = (P / (X - xx))(xx), whatever b contained before *)
+  Theorem vdm_row_spec : forall k c xx b, 1 <= k -> length c = k -> length b = k ->
+    fvdm_row k c xx b = (fquot (c ++ [one]) xx, pe (fquot (c ++ [one]) xx) xx).
+  Proof.
+    intros k c xx b Hk HL HLb. unfold vdm_row. rewrite range_0.
+    assert (HLQ : length (fquot (c ++ [one]) xx) = k).
+    { rewrite (quot_length F zero add mul), app_length. cbn [length]. lia. }
+    assert (Elast : nth (k - 1) (fquot (c ++ [one]) xx) zero = one).
+    { rewrite quot_nth_rec. replace (S (k - 1)) with k by lia.
+      rewrite (ext_eq c k HL). rewrite (nth_overflow (fquot _ _)) by lia. ring. }
+    apply (row_loop_spec k c xx HL).
+    - lia.
+    - rewrite set_nth_length. exact HLb.
+    - intros j Hj. destruct (Nat.eq_dec j (k - 1)) as [E|NE].
+      + rewrite E, Elast. apply nth_set_nth_eq. lia.
+      + rewrite nth_set_nth_neq by exact NE.
+        rewrite !nth_overflow by lia. reflexivity.
+    - rewrite (skipn_nth_cons F (k - 1) _ zero) by lia.
+      replace (S (k - 1)) with k by lia.
+      rewrite skipn_all2 by lia. rewrite Elast. cbn [peval fold_right]. ring.
+  Qed.
+
+  (* ---- the facts of RSSpec.v, specialised to the present field ---- *)
+  Lemma T_quot_spec : forall p a x,
+    pe p x = add (pe p a) (mul (fsub x a) (pe (fquot p a) x)).
+  Proof. apply (quot_spec F zero one add mul opp); assumption. Qed.
+
+  Lemma T_quot_length : forall p a, length (fquot p a) = pred (length p).
+  Proof. apply (quot_length F zero add mul). Qed.
+
+  Lemma T_mul_eq_zero : forall a b, mul a b = zero -> a = zero \/ b = zero.
+  Proof. apply (mul_eq_zero F zero one add mul opp inv); assumption. Qed.
+
+  Lemma T_sub_eq_zero : forall x a, fsub x a = zero -> x = a.
+  Proof. apply (sub_eq_zero F zero one add mul opp); assumption. Qed.
+
+  Lemma T_root_bound : forall (p xs : list F),
+    NoDup xs -> length p <= length xs ->
+    (forall x, In x xs -> pe p x = zero) -> Forall (fun c => c = zero) p.
+  Proof. apply (root_bound F zero one add mul opp inv); assumption. Qed.
+
+  Lemma T_peval_inj : forall p q xs,
+    length p = length q -> NoDup xs -> length p <= length xs ->
+    (forall x, In x xs -> pe p x = pe q x) -> p = q.
+  Proof. apply (peval_inj F zero one add mul opp inv); assumption. Qed.
+
+  Lemma T_peval_pscale : forall c p x, pe (fpscale c p) x = mul c (pe p x).
+  Proof. apply (peval_pscale F zero one add mul opp); assumption. Qed.
+
+  Lemma T_lagr_poly_length : forall pts i, i < length pts ->
+    length (flagr_poly pts i) = length pts.
+  Proof. apply (lagr_poly_length F zero one add mul opp inv); assumption. Qed.
+
+  Lemma T_peval_lagr_poly : forall pts i x, pe (flagr_poly pts i) x = flagr pts i x.
+  Proof. apply (peval_lagr_poly F zero one add mul opp inv); assumption. Qed.
+
+  Lemma T_lagr_delta : forall pts i j,
+    NoDup pts -> i < length pts -> j < length pts ->
+    flagr pts i (nth j pts zero) = if Nat.eqb i j then one else zero.
+  Proof. apply (lagr_delta F zero one add mul opp inv); assumption. Qed.
+
+  (* ---- from the quotient to the Lagrange basis polynomial ---- *)
+  Section Quotient.
+    Variable pts : list F.
+    Variable c : list F.
+    Hypothesis ND : NoDup pts.
+    Hypothesis HLc : length c = length pts.
+    Hypothesis Hroots : forall l, l < length pts -> pe (c ++ [one]) (nth l pts zero) = zero.
+
+    Local Notation P := (c ++ [one]).
+    Local Notation Qr r := (fquot (c ++ [one]) (nth r pts zero)).
+
+    Lemma Qr_length : forall r, length (Qr r) = length pts.
+    Proof.
+      intros r. rewrite T_quot_length, app_length. cbn [length]. lia.
+    Qed.
+
+    Lemma Qr_other : forall r l, r < length pts -> l < length pts -> l <> r ->
+      pe (Qr r) (nth l pts zero) = zero.
+    Proof.
+      intros r l Hr Hl Hne.
+      pose proof (T_quot_spec P (nth r pts zero) (nth l pts zero)) as HQ.
+      rewrite (Hroots l Hl), (Hroots r Hr) in HQ.
+      assert (Hm : mul (fsub (nth l pts zero) (nth r pts zero))
+                       (pe (Qr r) (nth l pts zero)) = zero).
+      { etransitivity; [|symmetry; exact HQ]. ring. }
+      destruct (T_mul_eq_zero _ _ Hm) as [E|E].
+      - exfalso. apply Hne. apply (nth_inj F zero pts l r ND Hl Hr).
+        apply T_sub_eq_zero. exact E.
+      - exact E.
+    Qed.
+
+    Lemma Qr_self_neq_zero : forall r, r < length pts ->
+      pe (Qr r) (nth r pts zero) <> zero.
+    Proof.
+      intros r Hr E.
+      assert (HF : Forall (fun a => a = zero) (Qr r)).
+      { apply (T_root_bound (Qr r) pts ND).
+        - rewrite Qr_length. lia.
+        - intros x Hx. destruct (In_nth pts x zero Hx) as [l [Hl El]]. subst x.
+          destruct (Nat.eq_dec l r) as [Elr|Nlr].
+          + subst l. exact E.
+          + apply Qr_other; assumption. }
+      assert (Elast : nth (length pts - 1) (Qr r) zero = one).
+      { rewrite quot_nth_rec. replace (S (length pts - 1)) with (length pts) by lia.
+        rewrite (ext_eq c (length pts) HLc).
+        rewrite (nth_overflow (Qr r)) by (rewrite Qr_length; lia). ring. }
+      apply one_neq_zero. rewrite <- Elast.
+      rewrite Forall_forall in HF. apply HF. apply nth_In. rewrite Qr_length. lia.
+    Qed.
+
+    Lemma Qr_lagr_poly : forall r, r < length pts ->
+      fpscale (inv (pe (Qr r) (nth r pts zero))) (Qr r) = flagr_poly pts r.
+    Proof.
+      intros r Hr.
+      apply (T_peval_inj _ _ pts).
+      - rewrite (pscale_length F mul), Qr_length, T_lagr_poly_length by exact Hr.
+        reflexivity.
+      - exact ND.
+      - rewrite (pscale_length F mul), Qr_length. lia.
+      - intros x Hx. destruct (In_nth pts x zero Hx) as [l [Hl El]]. subst x.
+        rewrite T_peval_pscale, T_peval_lagr_poly, (T_lagr_delta pts r l ND Hr Hl).
+        destruct (Nat.eqb_spec r l) as [Erl|Nrl].
+        + subst l. rewrite mul_comm. apply mul_inv_r. apply Qr_self_neq_zero. exact Hr.
+        + rewrite (Qr_other r l Hr Hl) by (intros E; apply Nrl; symmetry; exact E). ring.
+    Qed.
+  End Quotient.
+
+  (* ---- matrices as lists of rows ---- *)
+  Lemma mget_set_same : forall (src : mat) i (r : list F) j,
+    i < length src -> mget (set_nth i r src) i j = nth j r zero.
+  Proof.
+    intros src i r j Hi. unfold get. rewrite nth_set_nth_eq by exact Hi. reflexivity.
+  Qed.
+
+  Lemma mget_set_other : forall (src : mat) i i' (r : list F) j,
+    i' <> i -> mget (set_nth i r src) i' j = mget src i' j.
+  Proof.
+    intros src i i' r j Hne. unfold get. rewrite nth_set_nth_neq by exact Hne. reflexivity.
+  Qed.
+
+  (* the loop  for (col = 0; col < m; col++) src[col][row] = it * b[col] *)
+  Lemma store_loop_spec : forall row it b m (src : mat),
+    m <= length src -> (forall i, i < m -> row < length (nth i src [])) ->
+    length (fold_left (fstore_col row it b) (seq 0 m) src) = length src /\
+    (forall i, length (nth i (fold_left (fstore_col row it b) (seq 0 m) src) [])
+               = length (nth i src [])) /\
+    (forall i, i < m ->
+       mget (fold_left (fstore_col row it b) (seq 0 m) src) i row = mul it (nth i b zero)) /\
+    (forall i j, m <= i \/ j <> row ->
+       mget (fold_left (fstore_col row it b) (seq 0 m) src) i j = mget src i j).
+  Proof.
+    intros row it b m. induction m as [|m IH]; intros src Hm Hrow.
+    - cbn [seq fold_left]. split; [reflexivity|]. split; [reflexivity|]. split.
+      + intros i Hi. lia.
+      + intros i j _. reflexivity.
+    - destruct (IH src) as [H1 [H2 [H3 H4]]]; [lia|intros i Hi; apply Hrow; lia|]. clear IH.
+      rewrite seq_S, fold_left_app. cbn [fold_left Nat.add].
+      set (s1 := fold_left (fstore_col row it b) (seq 0 m) src) in *.
+      unfold store_col.
+      assert (Hm1 : m < length s1) by (rewrite H1; lia).
+      assert (Hr1 : row < length (nth m s1 [])) by (rewrite H2; apply Hrow; lia).
+      split; [rewrite set_nth_length; exact H1|]. split; [|split].
+      + intros i. destruct (Nat.eq_dec i m) as [E|NE].
+        * subst i. rewrite nth_set_nth_eq by exact Hm1. rewrite set_nth_length. apply H2.
+        * rewrite nth_set_nth_neq by exact NE. apply H2.
+      + intros i Hi. destruct (Nat.eq_dec i m) as [E|NE].
+        * subst i. rewrite mget_set_same by exact Hm1. apply nth_set_nth_eq. exact Hr1.
+        * rewrite mget_set_other by exact NE. apply H3. lia.
+      + intros i j Hij. destruct (Nat.eq_dec i m) as [E|NE].
+        * subst i. rewrite mget_set_same by exact Hm1.
+          rewrite nth_set_nth_neq by lia. apply (H4 m j). left. lia.
+        * rewrite mget_set_other by exact NE. apply H4. lia.
+  Qed.
+
+  (* the loop  for (row = 0; row < m; row++)  of of_invert_vdm *)
+  Lemma rows_loop_spec : forall k c p, 1 <= k -> length c = k ->
+    forall m (src : mat) b,
+      m <= k -> k <= length src -> (forall i, i < k -> length (nth i src []) = k) ->
+      length b = k ->
+      length (fst (fold_left (finvert_row k c p) (seq 0 m) (src, b))) = length src /\
+      (forall i, length (nth i (fst (fold_left (finvert_row k c p) (seq 0 m) (src, b))) [])
+                 = length (nth i src [])) /\
+      length (snd (fold_left (finvert_row k c p) (seq 0 m) (src, b))) = k /\
+      (forall i j, i < k -> j < m ->
+         mget (fst (fold_left (finvert_row k c p) (seq 0 m) (src, b))) i j
+         = mul (inv (pe (fquot (c ++ [one]) (nth j p zero)) (nth j p zero)))
+               (nth i (fquot (c ++ [one]) (nth j p zero)) zero)) /\
+      (forall i j, k <= i \/ m <= j ->
+         mget (fst (fold_left (finvert_row k c p) (seq 0 m) (src, b))) i j = mget src i j).
+  Proof.
+    intros k c p Hk HLc m. induction m as [|m IH]; intros src b Hm Hsrc Hrows HLb.
+    - cbn [seq fold_left fst snd]. split; [reflexivity|]. split; [reflexivity|].
+      split; [exact HLb|]. split.
+      + intros i j _ Hj. lia.
+      + intros i j _. reflexivity.
+    - destruct (IH src b) as [H1 [H2 [H3 [H4 H5]]]]; try assumption; [lia|]. clear IH.
+      rewrite seq_S, fold_left_app. cbn [fold_left Nat.add].
+      set (st := fold_left (finvert_row k c p) (seq 0 m) (src, b)) in *.
+      unfold invert_row.
+      rewrite (vdm_row_spec k c (nth m p zero) (snd st) Hk HLc H3). cbn [fst snd].
+      rewrite range_0.
+      set (B := fquot (c ++ [one]) (nth m p zero)).
+      set (it := inv (pe B (nth m p zero))).
+      destruct (store_loop_spec m it B k (fst st)) as [S1 [S2 [S3 S4]]].
+      { rewrite H1. exact Hsrc. }
+      { intros i Hi. rewrite H2, Hrows by exact Hi. lia. }
+      split; [rewrite S1; exact H1|]. split; [intros i; rewrite S2; apply H2|].
+      split.
+      { unfold B. rewrite T_quot_length, app_length. cbn [length]. lia. }
+      split.
+      + intros i j Hi Hj. destruct (Nat.eq_dec j m) as [E|NE].
+        * subst j. apply S3. exact Hi.
+        * rewrite S4 by (right; exact NE). apply H4; [exact Hi|lia].
+      + intros i j Hij. destruct (Nat.eq_dec j m) as [E|NE].
+        * subst j. rewrite S4 by lia. apply H5. lia.
+        * rewrite S4 by (right; exact NE). apply H5. lia.
+  Qed.
+
+  (* ---- of_invert_vdm ---- *)
+  Theorem invert_vdm_gen_spec : forall k pts b0 (src : mat),
+    2 <= k -> NoDup pts -> k <= length pts -> nth 0 pts zero = zero ->
+    k <= length src -> (forall i, i < k -> length (nth i src []) = k) -> length b0 = k ->
+    (forall i, i < k -> mget src i 1 = nth i pts zero) ->
+    length (finvert_vdm_gen k b0 src) = length src /\
+    (forall i, length (nth i (finvert_vdm_gen k b0 src) []) = length (nth i src [])) /\
+    (forall col row, col < k -> row < k ->
+       mget (finvert_vdm_gen k b0 src) col row
+       = nth col (flagr_poly (firstn k pts) row) zero) /\
+    (forall i j, k <= i -> mget (finvert_vdm_gen k b0 src) i j = mget src i j).
+  Proof.
+    intros k pts b0 src Hk ND Hkn Hp0 Hsrc Hrows HLb Hcol1.
+    unfold invert_vdm_gen.
+    destruct (Nat.eqb_spec k 1) as [E|_]; [lia|]. cbv zeta. rewrite range_0.
+    assert (HLf : length (firstn k pts) = k) by (rewrite firstn_length; lia).
+    assert (Ep : map (fun i => mget src i 1) (seq 0 k) = firstn k pts).
+    { apply (nth_ext _ _ zero zero).
+      - rewrite map_length, seq_length, HLf. reflexivity.
+      - intros i Hi. rewrite map_length, seq_length in Hi.
+        rewrite (nth_map_seq0 F (fun i => mget src i 1) k i zero Hi).
+        rewrite nth_firstn_lt by exact Hi. apply Hcol1. exact Hi. }
+    rewrite Ep.
+    set (p := firstn k pts) in *.
+    assert (NDp : NoDup p) by (apply NoDup_firstn; exact ND).
+    assert (Hp0' : nth 0 p zero = zero).
+    { unfold p. rewrite nth_firstn_lt by lia. exact Hp0. }
+    destruct (vdm_coeffs_poly k p ltac:(lia) Hp0') as [HLc _].
+    set (c := fvdm_coeffs k p) in *.
+    destruct (rows_loop_spec k c p ltac:(lia) HLc k src b0 (le_n k) Hsrc Hrows HLb)
+      as [H1 [H2 [_ [H4 H5]]]].
+    split; [exact H1|]. split; [exact H2|]. split.
+    - intros col row Hcol Hrow. rewrite (H4 col row Hcol Hrow).
+      rewrite <- (Qr_lagr_poly p c NDp).
+      + rewrite nth_pscale. reflexivity.
+      + rewrite HLc, HLf. reflexivity.
+      + intros l Hl. rewrite HLf in Hl. unfold c.
+        apply vdm_coeffs_roots; [lia|exact Hp0'|exact Hl].
+      + rewrite HLf. exact Hrow.
+    - intros i j Hi. apply H5. left. exact Hi.
+  Qed.
+
+  (* ---- the Vandermonde matrix of of_rs_new ---- *)
+  Lemma vdm_rows_length : forall n k pts, 1 <= n -> length (fvdm_rows n k pts) = n.
+  Proof.
+    intros n k pts Hn. unfold vdm_rows. cbn [length].
+    rewrite map_length, range_0, seq_length. lia.
+  Qed.
+
+  Lemma vdm_rows_row_length : forall n k pts i, 1 <= k -> i < n ->
+    length (nth i (fvdm_rows n k pts) []) = k.
+  Proof.
+    intros n k pts i Hk Hi. unfold vdm_rows. destruct i as [|i].
+    - cbn [nth length]. rewrite map_length. unfold range. rewrite seq_length. lia.
+    - cbn [nth]. rewrite !range_0.
+      rewrite (nth_map_seq0 (list F) _ (n - 1) i []) by lia.
+      rewrite map_length, seq_length. reflexivity.
+  Qed.
+
+  Lemma vdm_rows_get_0 : forall n k pts j,
+    mget (fvdm_rows n k pts) 0 j = if Nat.eqb j 0 then one else zero.
+  Proof.
+    intros n k pts j. unfold get, vdm_rows. cbn [nth]. destruct j as [|j].
+    - reflexivity.
+    - cbn [nth Nat.eqb]. destruct (lt_dec j (length (range 1 k))) as [Hj|Hj].
+      + rewrite (nth_map_lt nat F (fun _ => zero) (range 1 k) j 0 zero Hj). reflexivity.
+      + apply nth_overflow. rewrite map_length. lia.
+  Qed.
+
+  Lemma vdm_rows_get_S : forall n k pts i j, S i < n -> j < k ->
+    mget (fvdm_rows n k pts) (S i) j = fpow (nth (S i) pts zero) j.
+  Proof.
+    intros n k pts i j Hi Hj. unfold get, vdm_rows. cbn [nth]. rewrite !range_0.
+    rewrite (nth_map_seq0 (list F) _ (n - 1) i []) by lia.
+    apply (nth_map_seq0 F (fun col => fpow (nth (S i) pts zero) col) k j zero Hj).
+  Qed.
+
+  Lemma pow_zero : forall j, fpow zero j = if Nat.eqb j 0 then one else zero.
+  Proof. intros j. destruct j as [|j]; cbn [pow Nat.eqb]; [reflexivity|ring]. Qed.
+
+  (* row j of tmp_m is (x_j^0, ..., x_j^(k-1)), with 0^0 = 1 in row 0 *)
+  Lemma vdm_rows_get : forall n k pts i j,
+    nth 0 pts zero = zero -> i < n -> j < k ->
+    mget (fvdm_rows n k pts) i j = fpow (nth i pts zero) j.
+  Proof.
+    intros n k pts i j Hp0 Hi Hj. destruct i as [|i].
+    - rewrite vdm_rows_get_0, Hp0, pow_zero. reflexivity.
+    - apply vdm_rows_get_S; assumption.
+  Qed.
+
+  Lemma lagr_poly_single : forall pts, 1 <= length pts -> flagr_poly (firstn 1 pts) 0 = [one].
+  Proof.
+    intros pts Hl. destruct pts as [|a pts]; [cbn [length] in Hl; lia|]. reflexivity.
+  Qed.
+
+  (* ---- of_invert_vdm applied to tmp_m: the top block becomes the matrix of the
+     Lagrange basis coefficients, the rows below are untouched ---- *)
+  Theorem invert_vdm_rows_spec : forall k n pts,
+    1 <= k -> k <= n -> NoDup pts -> k <= length pts ->
+    (2 <= k -> nth 0 pts zero = zero) ->
+    length (finvert_vdm_mat k (fvdm_rows n k pts)) = n /\
+    (forall col row, col < k -> row < k ->
+       mget (finvert_vdm_mat k (fvdm_rows n k pts)) col row
+       = nth col (flagr_poly (firstn k pts) row) zero) /\
+    (forall i j, k <= i ->
+       mget (finvert_vdm_mat k (fvdm_rows n k pts)) i j = mget (fvdm_rows n k pts) i j).
+  Proof.
+    intros k n pts Hk Hkn ND Hkl Hp0. unfold invert_vdm_mat.
+    destruct (Nat.eq_dec k 1) as [E1|N1].
+    - subst k. unfold invert_vdm_gen. cbn [Nat.eqb].
+      split; [apply vdm_rows_length; lia|]. split.
+      + intros col row Hcol Hrow.
+        assert (Ec : col = 0) by lia. assert (Er : row = 0) by lia. subst col row.
+        rewrite vdm_rows_get_0, lagr_poly_single by lia. reflexivity.
+      + intros i j _. reflexivity.
+    - destruct (invert_vdm_gen_spec k pts (repeat zero k) (fvdm_rows n k pts))
+        as [H1 [_ [H3 H4]]]; try assumption.
+      + lia.
+      + apply Hp0. lia.
+      + rewrite vdm_rows_length; lia.
+      + intros i Hi. apply vdm_rows_row_length; lia.
+      + apply repeat_length.
+      + intros i Hi. rewrite vdm_rows_get by (try apply Hp0; lia).
+        cbn [pow]. ring.
+      + split; [rewrite H1; apply vdm_rows_length; lia|]. split; [exact H3|exact H4].
+  Qed.
+
+  (* entry [col][row] of the inverted matrix is coefficient number col of the
+     Lagrange basis polynomial number row *)
+  Theorem invert_vdm_spec : forall k pts,
+    1 <= k -> NoDup pts -> k <= length pts -> (2 <= k -> nth 0 pts zero = zero) ->
+    forall col row, col < k -> row < k ->
+      mget (finvert_vdm k pts) col row = nth col (flagr_poly (firstn k pts) row) zero.
+  Proof.
+    intros k pts Hk ND Hkl Hp0. unfold invert_vdm.
+    destruct (invert_vdm_rows_spec k k pts Hk (le_n k) ND Hkl Hp0) as [_ [H _]]. exact H.
+  Qed.
+
+  (* ---- polynomial evaluation as a sum of monomials ---- *)
+  Lemma peval_as_sum : forall q x,
+    pe q x = fsum (map (fun m => mul (fpow x m) (nth m q zero)) (seq 0 (length q))).
+  Proof.
+    intros q x. induction q as [|a q IH].
+    - reflexivity.
+    - cbn [length seq map].
+      change (pe (a :: q) x) with (add a (mul x (pe q x))).
+      change (fsum (?h :: ?t)) with (add h (fsum t)).
+      rewrite <- seq_shift, map_map. cbn [nth pow].
+      rewrite IH.
+      rewrite <- (sum_map_scale F zero one add mul opp add_comm add_assoc add_0_l add_opp_r
+                    mul_comm mul_assoc mul_1_l mul_add_distr_l).
+      f_equal; [ring|]. f_equal. apply map_ext. intros m. ring.
+  Qed.
+
+  Lemma fold_left_add : forall (f : nat -> F) l a,
+    fold_left (fun acc i => add acc (f i)) l a = add a (fsum (map f l)).
+  Proof.
+    intros f l. induction l as [|i l IH]; intros a.
+    - cbn. ring.
+    - cbn [fold_left map]. rewrite IH.
+      change (fsum (f i :: map f l)) with (add (f i) (fsum (map f l))). ring.
+  Qed.
+
+  (* V * V^-1 = I on the top block *)
+  Theorem invert_vdm_inverse : forall k pts,
+    1 <= k -> NoDup pts -> k <= length pts -> nth 0 pts zero = zero ->
+    forall j i, j < k -> i < k ->
+      fsum (map (fun col => mul (mget (fvdm_rows k k pts) j col)
+                                (mget (finvert_vdm k pts) col i)) (seq 0 k))
+      = if Nat.eqb i j then one else zero.
+  Proof.
+    intros k pts Hk ND Hkl Hp0 j i Hj Hi.
+    assert (HLf : length (firstn k pts) = k) by (rewrite firstn_length; lia).
+    rewrite <- (T_lagr_delta (firstn k pts) i j) by (try apply NoDup_firstn; try assumption; lia).
+    rewrite <- T_peval_lagr_poly, peval_as_sum, T_lagr_poly_length, HLf by lia.
+    f_equal. apply map_ext_in. intros col Hcol. apply in_seq in Hcol.
+    rewrite vdm_rows_get by (try assumption; lia).
+    rewrite invert_vdm_spec by (try assumption; try (intros _; assumption); lia).
+    rewrite nth_firstn_lt by exact Hj. reflexivity.
+  Qed.
+
+  (* ---- of_rs_new: the encoding matrix ---- *)
+  Lemma unit_rows_length : forall k, length (funit_rows k) = k.
+  Proof. intros k. unfold unit_rows. rewrite map_length, range_0, seq_length. reflexivity. Qed.
+
+  Lemma build_enc_length : forall k n pts, k <= n -> length (fbuild_enc k n pts) = n.
+  Proof.
+    intros k n pts Hkn. unfold build_enc. cbv zeta.
+    rewrite app_length, unit_rows_length. unfold matmul.
+    rewrite map_length, range_0, seq_length. lia.
+  Qed.
+
+  Lemma build_enc_row_length : forall k n pts j, j < n -> k <= n ->
+    length (nth j (fbuild_enc k n pts) []) = k.
+  Proof.
+    intros k n pts j Hj Hkn. unfold build_enc. cbv zeta.
+    destruct (lt_dec j k) as [Hjk|Hjk].
+    - rewrite app_nth1 by (rewrite unit_rows_length; exact Hjk).
+      unfold unit_rows. rewrite !range_0.
+      rewrite (nth_map_seq0 (list F) _ k j [] Hjk).
+      rewrite map_length, seq_length. reflexivity.
+    - rewrite app_nth2 by (rewrite unit_rows_length; lia). rewrite unit_rows_length.
+      unfold matmul. rewrite !range_0.
+      rewrite (nth_map_seq0 (list F) _ (n - k) (j - k) []) by lia.
+      rewrite map_length, seq_length. reflexivity.
+  Qed.
+
+  (* rows j < k are unit rows *)
+  Theorem build_enc_unit : forall k n pts j i, j < k -> i < k ->
+    mget (fbuild_enc k n pts) j i = if Nat.eqb j i then one else zero.
+  Proof.
+    intros k n pts j i Hj Hi. unfold build_enc, get. cbv zeta.
+    rewrite app_nth1 by (rewrite unit_rows_length; exact Hj).
+    unfold unit_rows. rewrite !range_0.
+    rewrite (nth_map_seq0 (list F) _ k j [] Hj).
+    apply (nth_map_seq0 F (fun j0 => if Nat.eqb j j0 then one else zero) k i zero Hi).
+  Qed.
+
+  (* rows j >= k: entry [j][i] is the Lagrange basis polynomial number i on the
+     first k points, evaluated at the point number j *)
+  Theorem build_enc_spec : forall k n pts,
+    1 <= k -> k <= n -> NoDup pts -> k <= length pts ->
+    (2 <= k -> nth 0 pts zero = zero) ->
+    forall j i, k <= j < n -> i < k ->
+      mget (fbuild_enc k n pts) j i = flagr (firstn k pts) i (nth j pts zero).
+  Proof.
+    intros k n pts Hk Hkn ND Hkl Hp0 j i Hj Hi.
+    destruct (invert_vdm_rows_spec k n pts Hk Hkn ND Hkl Hp0) as [_ [Htop Hbot]].
+    unfold build_enc, get. cbv zeta.
+    set (tmp := finvert_vdm_mat k (fvdm_rows n k pts)) in *.
+    rewrite app_nth2 by (rewrite unit_rows_length; lia). rewrite unit_rows_length.
+    unfold matmul. rewrite !range_0.
+    rewrite (nth_map_seq0 (list F) _ (n - k) (j - k) []) by lia.
+    rewrite (nth_map_seq0 F _ k i zero Hi).
+    rewrite fold_left_add, add_0_l.
+    assert (HLf : length (firstn k pts) = k) by (rewrite firstn_length; lia).
+    rewrite <- T_peval_lagr_poly, peval_as_sum, T_lagr_poly_length, HLf by lia.
+    f_equal. apply map_ext_in. intros l Hl. apply in_seq in Hl.
+    rewrite (Htop l i) by lia. f_equal.
+    unfold get at 1. rewrite nth_skipn_plus. replace (k + (j - k)) with j by lia.
+    fold (mget tmp j l). rewrite Hbot by lia.
+    destruct j as [|j]; [lia|]. apply vdm_rows_get_S; lia.
+  Qed.
+End Theory.
+
+(* ------------------------------------------------------------------ *)
+(* Part 3: homomorphisms                                               *)
+(* ------------------------------------------------------------------ *)
+Lemma map_repeat_const : forall (X Y : Type) (f : X -> Y) (a : X) (n : nat),
+  map f (repeat a n) = repeat (f a) n.
+Proof.
+  intros X Y f a n. induction n as [|n IH]; [reflexivity|].
+  cbn [repeat map]. rewrite IH. reflexivity.
+Qed.
+
+Section HomV.
+  Variables F1 F2 : Type.
+  Variables (zero1 one1 : F1) (add1 mul1 : F1 -> F1 -> F1) (inv1 : F1 -> F1).
+  Variables (zero2 one2 : F2) (add2 mul2 : F2 -> F2 -> F2) (inv2 : F2 -> F2).
+  Variable phi : F1 -> F2.
+  Hypothesis phi_zero : phi zero1 = zero2.
+  Hypothesis phi_one : phi one1 = one2.
+  Hypothesis phi_add : forall a b, phi (add1 a b) = add2 (phi a) (phi b).
+  Hypothesis phi_mul : forall a b, phi (mul1 a b) = mul2 (phi a) (phi b).
+  Hypothesis phi_inv : forall a, phi (inv1 a) = inv2 (phi a).
+
+  Local Notation up := (mmap F1 F2 phi).
+
+  Lemma hv_nth : forall l i, nth i (map phi l) zero2 = phi (nth i l zero1).
+  Proof. exact (hom_nthz F1 F2 zero1 zero2 phi phi_zero). Qed.
+
+  Lemma hv_get : forall A i j, get F2 zero2 (up A) i j = phi (get F1 zero1 A i j).
+  Proof. exact (hom_get F1 F2 zero1 zero2 phi phi_zero). Qed.
+
+  Lemma hom_coeff_upd : forall pi c j,
+    map phi (coeff_upd F1 zero1 add1 mul1 pi c j)
+    = coeff_upd F2 zero2 add2 mul2 (phi pi) (map phi c) j.
+  Proof.
+    intros pi c j. unfold coeff_upd.
+    rewrite map_set_nth, phi_add, phi_mul, !hv_nth. reflexivity.
+  Qed.
+
+  Lemma hom_coeff_step : forall k p c i,
+    map phi (coeff_step F1 zero1 add1 mul1 k p c i)
+    = coeff_step F2 zero2 add2 mul2 k (map phi p) (map phi c) i.
+  Proof.
+    intros k p c i. unfold coeff_step. cbv zeta. rewrite (hv_nth p i).
+    set (c1 := fold_left (coeff_upd F1 zero1 add1 mul1 (nth i p zero1))
+                         (range (k - 1 - (i - 1)) (k - 1)) c).
+    assert (E : map phi c1
+                = fold_left (coeff_upd F2 zero2 add2 mul2 (phi (nth i p zero1)))
+                            (range (k - 1 - (i - 1)) (k - 1)) (map phi c)).
+    { unfold c1. apply fold_left_hom. intros s j. apply hom_coeff_upd. }
+    rewrite map_set_nth, phi_add, <- (hv_nth c1), E. reflexivity.
+  Qed.
+
+  Lemma hom_vdm_coeffs : forall k p,
+    map phi (vdm_coeffs F1 zero1 add1 mul1 k p)
+    = vdm_coeffs F2 zero2 add2 mul2 k (map phi p).
+  Proof.
+    intros k p. unfold vdm_coeffs.
+    rewrite (fold_left_hom (list F1) (list F2) nat (map phi)
+               (coeff_step F1 zero1 add1 mul1 k p)
+               (coeff_step F2 zero2 add2 mul2 k (map phi p)))
+      by (intros s i; apply hom_coeff_step).
+    rewrite map_set_nth, map_repeat_const, phi_zero, hv_nth. reflexivity.
+  Qed.
+
+  Definition up_bt (st : list F1 * F1) : list F2 * F2 := (map phi (fst st), phi (snd st)).
+
+  Lemma hom_row_step : forall c xx st i,
+    up_bt (row_step F1 zero1 add1 mul1 c xx st i)
+    = row_step F2 zero2 add2 mul2 (map phi c) (phi xx) (up_bt st) i.
+  Proof.
+    intros c xx st i. unfold row_step, up_bt. cbv zeta. cbn [fst snd].
+    rewrite phi_add, phi_mul, <- !hv_nth, map_set_nth, phi_add, phi_mul, <- !hv_nth.
+    reflexivity.
+  Qed.
+
+  Lemma hom_vdm_row : forall k c xx b,
+    up_bt (vdm_row F1 zero1 one1 add1 mul1 k c xx b)
+    = vdm_row F2 zero2 one2 add2 mul2 k (map phi c) (phi xx) (map phi b).
+  Proof.
+    intros k c xx b. unfold vdm_row.
+    rewrite (fold_left_hom (list F1 * F1) (list F2 * F2) nat up_bt
+               (row_step F1 zero1 add1 mul1 c xx)
+               (row_step F2 zero2 add2 mul2 (map phi c) (phi xx)))
+      by (intros s i; apply hom_row_step).
+    unfold up_bt. cbn [fst snd]. rewrite map_set_nth, phi_one. reflexivity.
+  Qed.
+
+  Lemma hom_store_col : forall row it b src col,
+    up (store_col F1 zero1 mul1 row it b src col)
+    = store_col F2 zero2 mul2 row (phi it) (map phi b) (up src) col.
+  Proof.
+    intros row it b src col. unfold store_col.
+    rewrite nth_mmap. unfold mmap.
+    rewrite !map_set_nth, phi_mul, hv_nth. reflexivity.
+  Qed.
+
+  Definition up_st (st : matrix F1 * list F1) : matrix F2 * list F2 :=
+    (up (fst st), map phi (snd st)).
+
+  Lemma hom_invert_row : forall k c p st row,
+    up_st (invert_row F1 zero1 one1 add1 mul1 inv1 k c p st row)
+    = invert_row F2 zero2 one2 add2 mul2 inv2 k (map phi c) (map phi p) (up_st st) row.
+  Proof.
+    intros k c p st row. unfold invert_row, up_st. cbv zeta. cbn [fst snd].
+    rewrite hv_nth, <- hom_vdm_row. unfold up_bt. cbn [fst snd].
+    rewrite <- phi_inv.
+    set (bt := vdm_row F1 zero1 one1 add1 mul1 k c (nth row p zero1) (snd st)).
+    rewrite (fold_left_hom (matrix F1) (matrix F2) nat up
+               (store_col F1 zero1 mul1 row (inv1 (snd bt)) (fst bt))
+               (store_col F2 zero2 mul2 row (phi (inv1 (snd bt))) (map phi (fst bt))))
+      by (intros s col; apply hom_store_col).
+    reflexivity.
+  Qed.
+
+  Lemma hom_invert_vdm_gen : forall k b0 src,
+    up (invert_vdm_gen F1 zero1 one1 add1 mul1 inv1 k b0 src)
+    = invert_vdm_gen F2 zero2 one2 add2 mul2 inv2 k (map phi b0) (up src).
+  Proof.
+    intros k b0 src. unfold invert_vdm_gen.
+    destruct (Nat.eqb k 1); [reflexivity|]. cbv zeta.
+    assert (Ep : map (fun i => get F2 zero2 (up src) i 1) (range 0 k)
+                 = map phi (map (fun i => get F1 zero1 src i 1) (range 0 k))).
+    { rewrite map_map. apply map_ext. intros i. apply hv_get. }
+    rewrite Ep, <- hom_vdm_coeffs.
+    set (p := map (fun i => get F1 zero1 src i 1) (range 0 k)).
+    set (c := vdm_coeffs F1 zero1 add1 mul1 k p).
+    change (up src, map phi b0) with (up_st (src, b0)).
+    rewrite <- (fold_left_hom (matrix F1 * list F1) (matrix F2 * list F2) nat up_st
+                  (invert_row F1 zero1 one1 add1 mul1 inv1 k c p)
+                  (invert_row F2 zero2 one2 add2 mul2 inv2 k (map phi c) (map phi p)))
+      by (intros s row; apply hom_invert_row).
+    reflexivity.
+  Qed.
+
+  Lemma hom_invert_vdm_mat : forall k src,
+    up (invert_vdm_mat F1 zero1 one1 add1 mul1 inv1 k src)
+    = invert_vdm_mat F2 zero2 one2 add2 mul2 inv2 k (up src).
+  Proof.
+    intros k src. unfold invert_vdm_mat.
+    rewrite hom_invert_vdm_gen, map_repeat_const, phi_zero. reflexivity.
+  Qed.
+
+  Lemma hom_vdm_rows : forall n k pts,
+    up (vdm_rows F1 zero1 one1 mul1 n k pts)
+    = vdm_rows F2 zero2 one2 mul2 n k (map phi pts).
+  Proof.
+    intros n k pts. unfold vdm_rows, mmap. cbn [map].
+    rewrite phi_one, !map_map. f_equal.
+    - f_equal. apply map_ext. intros _. exact phi_zero.
+    - apply map_ext. intros r. rewrite map_map. apply map_ext. intros col.
+      rewrite (hom_pow F1 F2 one1 mul1 one2 mul2 phi phi_one phi_mul), hv_nth.
+      reflexivity.
+  Qed.
+
+  Lemma hom_invert_vdm : forall k pts,
+    up (invert_vdm F1 zero1 one1 add1 mul1 inv1 k pts)
+    = invert_vdm F2 zero2 one2 add2 mul2 inv2 k (map phi pts).
+  Proof.
+    intros k pts. unfold invert_vdm. rewrite hom_invert_vdm_mat, hom_vdm_rows. reflexivity.
+  Qed.
+
+  Lemma hom_matmul : forall A B nr kk m,
+    up (matmul F1 zero1 add1 mul1 A B nr kk m)
+    = matmul F2 zero2 add2 mul2 (up A) (up B) nr kk m.
+  Proof.
+    intros A B nr kk m. unfold matmul. unfold mmap at 1. rewrite map_map.
+    apply map_ext. intros row. rewrite map_map. apply map_ext. intros col.
+    rewrite (fold_left_hom F1 F2 nat phi
+               (fun acc i => add1 acc (mul1 (get F1 zero1 A row i) (get F1 zero1 B i col)))
+               (fun acc i => add2 acc (mul2 (get F2 zero2 (up A) row i)
+                                            (get F2 zero2 (up B) i col)))).
+    - rewrite phi_zero. reflexivity.
+    - intros s i. rewrite phi_add, phi_mul, !hv_get. reflexivity.
+  Qed.
+
+  Lemma hom_unit_rows : forall k,
+    up (unit_rows F1 zero1 one1 k) = unit_rows F2 zero2 one2 k.
+  Proof.
+    intros k. unfold unit_rows, mmap. rewrite map_map. apply map_ext. intros i.
+    rewrite map_map. apply map_ext. intros j.
+    destruct (Nat.eqb i j); [exact phi_one|exact phi_zero].
+  Qed.
+
+  Lemma hom_build_enc : forall k n pts,
+    up (build_enc F1 zero1 one1 add1 mul1 inv1 k n pts)
+    = build_enc F2 zero2 one2 add2 mul2 inv2 k n (map phi pts).
+  Proof.
+    intros k n pts. unfold build_enc. cbv zeta.
+    unfold mmap at 1. rewrite map_app. fold (up (unit_rows F1 zero1 one1 k)).
+    rewrite hom_unit_rows. f_equal.
+    fold (up (matmul F1 zero1 add1 mul1
+                (skipn k (invert_vdm_mat F1 zero1 one1 add1 mul1 inv1 k
+                            (vdm_rows F1 zero1 one1 mul1 n k pts)))
+                (invert_vdm_mat F1 zero1 one1 add1 mul1 inv1 k
+                   (vdm_rows F1 zero1 one1 mul1 n k pts)) (n - k) k k)).
+    rewrite hom_matmul. unfold mmap at 1. rewrite <- skipn_map.
+    fold (up (invert_vdm_mat F1 zero1 one1 add1 mul1 inv1 k
+                (vdm_rows F1 zero1 one1 mul1 n k pts))).
+    rewrite hom_invert_vdm_mat, hom_vdm_rows. reflexivity.
+  Qed.
+End HomV.
+
+(* ------------------------------------------------------------------ *)
+(* Part 4: executable instances over N                                 *)
+(* ------------------------------------------------------------------ *)
+Local Open Scope N_scope.
+
+Definition invert_vdmN (m p : N) (mulN : N -> N -> N) (invN : N -> N) (k : nat)
+  : list (list N) :=
+  invert_vdm N 0 1 N.lxor mulN invN k (ptsN m p k).
+
+Definition build_encN (m p : N) (mulN : N -> N -> N) (invN : N -> N) (k n : nat)
+  : list (list N) :=
+  build_enc N 0 1 N.lxor mulN invN k n (ptsN m p n).
+
+Definition invert_vdm256 := invert_vdmN 8 P256 mul256 inv256.
+Definition build_enc256 := build_encN 8 P256 mul256 inv256.
+Definition invert_vdm16 := invert_vdmN 4 P16 mul16 inv16.
+Definition build_enc16 := build_encN 4 P16 mul16 inv16.
+
+Lemma firstn_seq_le : forall k n a, (k <= n)%nat -> firstn k (seq a n) = seq a k.
+Proof.
+  intros k. induction k as [|k IH]; intros n a Hk.
+  - reflexivity.
+  - destruct n as [|n]; [lia|]. cbn [seq firstn]. rewrite IH by lia. reflexivity.
+Qed.
+
+(* ---- generic transfer along an injective homomorphism into N ---- *)
+Section TransferV.
+  Variables (m p : N) (mulN : N -> N -> N) (invN : N -> N).
+  Variable q : N.
+  Variable qn : nat.
+  Variable G : Type.
+  Variables (zero one : G) (add mul : G -> G -> G) (opp inv : G -> G).
+
+  Hypothesis eq_dec : forall a b : G, {a = b} + {a <> b}.
+  Hypothesis add_comm : forall a b, add a b = add b a.
+  Hypothesis add_assoc : forall a b c, add a (add b c) = add (add a b) c.
+  Hypothesis add_0_l : forall a, add zero a = a.
+  Hypothesis add_opp_r : forall a, add a (opp a) = zero.
+  Hypothesis add_self : forall a, add a a = zero.
+  Hypothesis mul_comm : forall a b, mul a b = mul b a.
+  Hypothesis mul_assoc : forall a b c, mul a (mul b c) = mul (mul a b) c.
+  Hypothesis mul_1_l : forall a, mul one a = a.
+  Hypothesis mul_add_distr_l : forall a b c, mul a (add b c) = add (mul a b) (mul a c).
+  Hypothesis mul_inv_r : forall a, a <> zero -> mul a (inv a) = one.
+  Hypothesis one_neq_zero : one <> zero.
+
+  Variable phi : G -> N.
+  Variable psi : N -> G.
+  Hypothesis phi_zero : phi zero = 0.
+  Hypothesis phi_one : phi one = 1.
+  Hypothesis phi_add : forall a b, phi (add a b) = N.lxor (phi a) (phi b).
+  Hypothesis phi_mul : forall a b, phi (mul a b) = mulN (phi a) (phi b).
+  Hypothesis phi_opp : forall a, phi (opp a) = phi a.
+  Hypothesis phi_inv : forall a, phi (inv a) = invN (phi a).
+  Hypothesis phi_inj : forall a b, phi a = phi b -> a = b.
+  Hypothesis phi_lt : forall a, phi a < q.
+  Hypothesis phi_psi : forall a, a < q -> phi (psi a) = a.
+  Hypothesis pt_lt : forall j, (j < qn)%nat -> rs_point m p j < q.
+  Hypothesis pt_inj : forall i j, (i < qn)%nat -> (j < qn)%nat ->
+    rs_point m p i = rs_point m p j -> i = j.
+
+  Local Notation pt := (rs_point m p).
+  Local Notation gpts := (ptsG m p G psi).
+  Local Notation lagrG := (lagr G zero one add mul opp inv).
+  Local Notation lagr_polyG := (lagr_poly G zero one add mul opp inv).
+  Local Notation up := (mmap G N phi).
+
+  (* the facts of RSCanon.v, specialised *)
+  Lemma TV_coefN_phi : forall k i j, (k <= qn)%nat -> (i < k)%nat -> (j < qn)%nat ->
+    coefN m p mulN invN k i j = phi (lagrG (gpts k) i (psi (pt j))).
+  Proof.
+    apply (coefN_phi m p mulN invN q qn G zero one add mul opp inv) with (phi := phi);
+      assumption.
+  Qed.
+
+  Lemma TV_map_phi_pts : forall k, (k <= qn)%nat -> map phi (gpts k) = ptsN m p k.
+  Proof.
+    apply (map_phi_ptsG m p q qn G zero one phi psi); assumption.
+  Qed.
+
+  Lemma TV_pts_NoDup : forall k, (k <= qn)%nat -> NoDup (gpts k).
+  Proof.
+    apply (ptsG_NoDup m p q qn G zero one phi psi); assumption.
+  Qed.
+
+  Lemma TV_nth_pts : forall k j, (j < k)%nat -> nth j (gpts k) zero = psi (pt j).
+  Proof.
+    apply (nth_ptsG m p q G zero phi psi); assumption.
+  Qed.
+
+  Lemma TV_pts_length : forall k, length (gpts k) = k.
+  Proof. apply ptsG_length. Qed.
+
+  Lemma TV_pts_0 : forall k, nth 0 (gpts k) zero = zero.
+  Proof.
+    intros k. destruct k as [|k].
+    - reflexivity.
+    - rewrite TV_nth_pts by lia. cbn [rs_point].
+      apply (psi_zero q G zero phi psi); assumption.
+  Qed.
+
+  Lemma TV_firstn_pts : forall k n, (k <= n)%nat -> firstn k (gpts n) = gpts k.
+  Proof.
+    intros k n Hk. unfold ptsG, ptsN. rewrite !firstn_map, firstn_seq_le by exact Hk.
+    reflexivity.
+  Qed.
+
+  Lemma build_encN_up : forall k n, (n <= qn)%nat ->
+    build_encN m p mulN invN k n = up (build_enc G zero one add mul inv k n (gpts n)).
+  Proof.
+    intros k n Hn. unfold build_encN.
+    rewrite (hom_build_enc G N zero one add mul inv 0 1 N.lxor mulN invN phi
+               phi_zero phi_one phi_add phi_mul phi_inv).
+    rewrite TV_map_phi_pts by exact Hn. reflexivity.
+  Qed.
+
+  Lemma invert_vdmN_up : forall k, (k <= qn)%nat ->
+    invert_vdmN m p mulN invN k = up (invert_vdm G zero one add mul inv k (gpts k)).
+  Proof.
+    intros k Hk. unfold invert_vdmN.
+    rewrite (hom_invert_vdm G N zero one add mul inv 0 1 N.lxor mulN invN phi
+               phi_zero phi_one phi_add phi_mul phi_inv).
+    rewrite TV_map_phi_pts by exact Hk. reflexivity.
+  Qed.
+
+  (* the matrix built by of_rs_new is the canonical generator *)
+  Theorem build_encN_spec : forall k n,
+    (1 <= k)%nat -> (k <= n)%nat -> (n <= qn)%nat ->
+    forall j i, (j < n)%nat -> (i < k)%nat ->
+      get N 0 (build_encN m p mulN invN k n) j i
+      = if Nat.ltb j k then (if Nat.eqb i j then 1 else 0)
+        else coefN m p mulN invN k i j.
+  Proof.
+    intros k n Hk Hkn Hn j i Hj Hi.
+    rewrite (build_encN_up k n Hn).
+    rewrite (hom_get G N zero 0 phi phi_zero).
+    destruct (Nat.ltb_spec j k) as [Hjk|Hjk].
+    - rewrite (build_enc_unit G zero one add mul inv k n (gpts n) j i Hjk Hi).
+      rewrite (Nat.eqb_sym i j).
+      destruct (Nat.eqb j i); [exact phi_one|exact phi_zero].
+    - rewrite (build_enc_spec G zero one add mul opp inv eq_dec add_comm add_assoc add_0_l
+                 add_opp_r add_self mul_comm mul_assoc mul_1_l mul_add_distr_l mul_inv_r
+                 one_neq_zero k n (gpts n) Hk Hkn (TV_pts_NoDup n Hn)).
+      + rewrite (TV_firstn_pts k n Hkn), (TV_nth_pts n j Hj).
+        symmetry. apply TV_coefN_phi; lia.
+      + rewrite TV_pts_length. exact Hkn.
+      + intros _. apply TV_pts_0.
+      + lia.
+      + exact Hi.
+  Qed.
+
+  Theorem build_encN_shape : forall k n, (k <= n)%nat ->
+    length (build_encN m p mulN invN k n) = n /\
+    forall j, (j < n)%nat -> length (nth j (build_encN m p mulN invN k n) []) = k.
+  Proof.
+    intros k n Hkn. unfold build_encN. split.
+    - apply (build_enc_length N 0 1 N.lxor mulN invN). exact Hkn.
+    - intros j Hj. apply (build_enc_row_length N 0 1 N.lxor mulN invN); assumption.
+  Qed.
+
+  (* the matrix left by of_invert_vdm holds the Lagrange coefficients ... *)
+  Theorem invert_vdmN_spec : forall k, (1 <= k)%nat -> (k <= qn)%nat ->
+    forall col row, (col < k)%nat -> (row < k)%nat ->
+      get N 0 (invert_vdmN m p mulN invN k) col row
+      = phi (nth col (lagr_polyG (gpts k) row) zero).
+  Proof.
+    intros k Hk Hkq col row Hcol Hrow.
+    rewrite (invert_vdmN_up k Hkq), (hom_get G N zero 0 phi phi_zero).
+    rewrite (invert_vdm_spec G zero one add mul opp inv eq_dec add_comm add_assoc add_0_l
+               add_opp_r add_self mul_comm mul_assoc mul_1_l mul_add_distr_l mul_inv_r
+               one_neq_zero k (gpts k) Hk (TV_pts_NoDup k Hkq)).
+    - rewrite <- (TV_pts_length k) at 1. rewrite firstn_all. reflexivity.
+    - rewrite TV_pts_length. lia.
+    - intros _. apply TV_pts_0.
+    - exact Hcol.
+    - exact Hrow.
+  Qed.
+
+  (* ... and is the inverse of the Vandermonde matrix on the first k points *)
+  Theorem invert_vdmN_inverse : forall k, (1 <= k)%nat -> (k <= qn)%nat ->
+    forall j i, (j < k)%nat -> (i < k)%nat ->
+      fold_right N.lxor 0
+        (map (fun col => mulN (get N 0 (vdm_rows N 0 1 mulN k k (ptsN m p k)) j col)
+                              (get N 0 (invert_vdmN m p mulN invN k) col i)) (seq 0 k))
+      = if Nat.eqb i j then 1 else 0.
+  Proof.
+    intros k Hk Hkq j i Hj Hi.
+    pose proof (invert_vdm_inverse G zero one add mul opp inv eq_dec add_comm add_assoc
+                  add_0_l add_opp_r add_self mul_comm mul_assoc mul_1_l mul_add_distr_l
+                  mul_inv_r one_neq_zero k (gpts k) Hk (TV_pts_NoDup k Hkq)) as HI.
+    rewrite TV_pts_length in HI. specialize (HI (le_n k) (TV_pts_0 k) j i Hj Hi).
+    apply (f_equal phi) in HI.
+    rewrite (hom_sum G N zero add 0 N.lxor phi phi_zero phi_add), map_map in HI.
+    assert (ER : phi (if Nat.eqb i j then one else zero) = if Nat.eqb i j then 1 else 0).
+    { destruct (Nat.eqb i j); [exact phi_one|exact phi_zero]. }
+    rewrite ER in HI. rewrite <- HI. unfold sum. f_equal. apply map_ext. intros col.
+    rewrite phi_mul, (invert_vdmN_up k Hkq), <- (TV_map_phi_pts k Hkq).
+    rewrite <- (hom_vdm_rows G N zero one mul 0 1 mulN phi phi_zero phi_one phi_mul).
+    rewrite !(hom_get G N zero 0 phi phi_zero). reflexivity.
+  Qed.
+End TransferV.
+
+(* ---- the instances q = 256 and q = 16 ---- *)
+Theorem build_enc256_spec : forall k n,
+  (k <= n <= 256)%nat -> (1 <= k)%nat ->
+  forall j i, (j < n)%nat -> (i < k)%nat ->
+    get N 0 (build_enc256 k n) j i
+    = if Nat.ltb j k then (if Nat.eqb i j then 1 else 0) else coef256 k i j.
+Proof.
+  intros k n [Hkn Hn] Hk j i Hj Hi. unfold build_enc256, coef256.
+  apply (build_encN_spec 8 P256 mul256 inv256 256 256%nat (GF 256)
+           F256_zero F256_one F256_add F256_mul F256_opp F256_inv)
+    with (phi := @val 256) (psi := of_N256);
+    first [field256 | exact F256_add_self | assumption].
+Qed.
+
+Theorem build_enc256_shape : forall k n, (k <= n)%nat ->
+  length (build_enc256 k n) = n /\
+  forall j, (j < n)%nat -> length (nth j (build_enc256 k n) []) = k.
+Proof. intros k n Hkn. unfold build_enc256. apply build_encN_shape. exact Hkn. Qed.
+
+Theorem invert_vdm256_inverse : forall k, (1 <= k)%nat -> (k <= 256)%nat ->
+  forall j i, (j < k)%nat -> (i < k)%nat ->
+    fold_right N.lxor 0
+      (map (fun col => mul256 (get N 0 (vdm_rows N 0 1 mul256 k k (ptsN 8 P256 k)) j col)
+                              (get N 0 (invert_vdm256 k) col i)) (seq 0 k))
+    = if Nat.eqb i j then 1 else 0.
+Proof.
+  intros k Hk Hkq j i Hj Hi. unfold invert_vdm256.
+  apply (invert_vdmN_inverse 8 P256 mul256 inv256 256 256%nat (GF 256)
+           F256_zero F256_one F256_add F256_mul F256_opp F256_inv)
+    with (phi := @val 256) (psi := of_N256);
+    first [field256 | exact F256_add_self | assumption].
+Qed.
+
+Theorem build_enc16_spec : forall k n,
+  (k <= n <= 16)%nat -> (1 <= k)%nat ->
+  forall j i, (j < n)%nat -> (i < k)%nat ->
+    get N 0 (build_enc16 k n) j i
+    = if Nat.ltb j k then (if Nat.eqb i j then 1 else 0) else coef16 k i j.
+Proof.
+  intros k n [Hkn Hn] Hk j i Hj Hi. unfold build_enc16, coef16.
+  apply (build_encN_spec 4 P16 mul16 inv16 16 16%nat (GF 16)
+           F16_zero F16_one F16_add F16_mul F16_opp F16_inv)
+    with (phi := @val 16) (psi := of_N16);
+    first [field16 | exact F16_add_self | assumption].
+Qed.
+
+Theorem build_enc16_shape : forall k n, (k <= n)%nat ->
+  length (build_enc16 k n) = n /\
+  forall j, (j < n)%nat -> length (nth j (build_enc16 k n) []) = k.
+Proof. intros k n Hkn. unfold build_enc16. apply build_encN_shape. exact Hkn. Qed.
+
+Theorem invert_vdm16_inverse : forall k, (1 <= k)%nat -> (k <= 16)%nat ->
+  forall j i, (j < k)%nat -> (i < k)%nat ->
+    fold_right N.lxor 0
+      (map (fun col => mul16 (get N 0 (vdm_rows N 0 1 mul16 k k (ptsN 4 P16 k)) j col)
+                             (get N 0 (invert_vdm16 k) col i)) (seq 0 k))
+    = if Nat.eqb i j then 1 else 0.
+Proof.
+  intros k Hk Hkq j i Hj Hi. unfold invert_vdm16.
+  apply (invert_vdmN_inverse 4 P16 mul16 inv16 16 16%nat (GF 16)
+           F16_zero F16_one F16_add F16_mul F16_opp F16_inv)
+    with (phi := @val 16) (psi := of_N16);
+    first [field16 | exact F16_add_self | assumption].
+Qed.
+
+(* ------------------------------------------------------------------ *)
+(* Part 5: examples                                                    *)
+(* ------------------------------------------------------------------ *)
+Definition canon256 (k n : nat) : list (list N) :=
+  map (fun j => map (fun i => if Nat.ltb j k then (if Nat.eqb i j then 1 else 0)
+                              else coef256 k i j) (seq 0 k)) (seq 0 n).
+Definition canon16 (k n : nat) : list (list N) :=
+  map (fun j => map (fun i => if Nat.ltb j k then (if Nat.eqb i j then 1 else 0)
+                              else coef16 k i j) (seq 0 k)) (seq 0 n).
+
+(* tmp_m of of_rs_new(3, 6) over GF(256): the points are 0, 1, 2, 4, 8, 16 *)
+Example vdm_rows256_3_6 :
+  vdm_rows N 0 1 mul256 6 3 (ptsN 8 P256 6)
+  = [[1; 0; 0]; [1; 1; 1]; [1; 2; 4]; [1; 4; 16]; [1; 8; 64]; [1; 16; 29]].
+Proof. vm_compute. reflexivity. Qed.
+
+Example invert_vdm256_2 : invert_vdm256 2 = [[1; 0]; [1; 1]].
+Proof. vm_compute. reflexivity. Qed.
+
+Example build_enc256_2_4 : build_enc256 2 4 = [[1; 0]; [0; 1]; [3; 2]; [5; 4]].
+Proof. vm_compute. reflexivity. Qed.
+Example build_enc256_2_4_canon : build_enc256 2 4 = canon256 2 4.
+Proof. vm_compute. reflexivity. Qed.
+
+Example invert_vdm256_3 : invert_vdm256 3 = [[1; 0; 0]; [143; 245; 122]; [142; 244; 122]].
+Proof. vm_compute. reflexivity. Qed.
+(* the general Gauss-Jordan inversion of GaussJordan.v gives the same matrix *)
+Example invert_vdm256_3_gj :
+  invert_mat256 3 (vdm_rows N 0 1 mul256 3 3 (ptsN 8 P256 3)) = Some (invert_vdm256 3).
+Proof. vm_compute. reflexivity. Qed.
+
+Example build_enc256_3_6 :
+  build_enc256 3 6
+  = [[1; 0; 0]; [0; 1; 0]; [0; 0; 1]; [15; 8; 6]; [45; 48; 28]; [153; 224; 120]].
+Proof. vm_compute. reflexivity. Qed.
+Example build_enc256_3_6_canon : build_enc256 3 6 = canon256 3 6.
+Proof. vm_compute. reflexivity. Qed.
+
+(* k = 1: of_invert_vdm returns at once; every row of the generator is (1) *)
+Example build_enc256_1_3 : build_enc256 1 3 = [[1]; [1]; [1]].
+Proof. vm_compute. reflexivity. Qed.
+
+Example build_enc256_8_24_canon : build_enc256 8 24 = canon256 8 24.
+Proof. vm_compute. reflexivity. Qed.
+
+Example build_enc16_3_6 :
+  build_enc16 3 6
+  = [[1; 0; 0]; [0; 1; 0]; [0; 0; 1]; [15; 8; 6]; [11; 5; 15]; [1; 1; 1]].
+Proof. vm_compute. reflexivity. Qed.
+Example build_enc16_3_6_canon : build_enc16 3 6 = canon16 3 6.
+Proof. vm_compute. reflexivity. Qed.
+Example build_enc16_5_16_canon : build_enc16 5 16 = canon16 5 16.
+Proof. vm_compute. reflexivity. Qed.
+
+(* of_invert_vdm on the Vandermonde matrix of the points 1, 2, 4 (p_0 <> 0):
+   the coefficient loop yields c = (0, 12, 7) where
+   (x+1)(x+2)(x+4) = x^3 + 7 x^2 + 14 x + 8, and the result is not the inverse *)
+Example vdm_coeffs_p0_nonzero : vdm_coeffs N 0 N.lxor mul256 3 [1; 2; 4] = [0; 12; 7].
+Proof. vm_compute. reflexivity. Qed.
+Example invert_vdm_needs_p0_zero :
+  mmul256 [[1; 1; 1]; [1; 2; 4]; [1; 4; 16]]
+          (invert_vdm_mat N 0 1 N.lxor mul256 inv256 3 [[1; 1; 1]; [1; 2; 4]; [1; 4; 16]])
+  <> mIN 3.
+Proof. vm_compute. discriminate. Qed.
+
+Print Assumptions vdm_coeffs_poly.
+Print Assumptions vdm_row_spec.
+Print Assumptions invert_vdm_gen_spec.
+Print Assumptions invert_vdm_spec.
+Print Assumptions invert_vdm_inverse.
+Print Assumptions build_enc_unit.
+Print Assumptions build_enc_spec.
+Print Assumptions hom_build_enc.
+Print Assumptions build_encN_spec.
+Print Assumptions build_enc256_spec.
+Print Assumptions build_enc256_shape.
+Print Assumptions invert_vdm256_inverse.
+Print Assumptions build_enc16_spec.
+Print Assumptions build_enc16_shape.
+Print Assumptions invert_vdm16_inverse.
+Print Assumptions invert_vdm_needs_p0_zero.
